@@ -87,7 +87,17 @@ func c19Counters(w *wworld.World) {
 	signed := map[string]bool{}      // B_ signed
 	maxSigned := map[string]uint32{} // wallet|keyset -> max signed counter
 	hasSigned := map[string]bool{}
-	for _, ex := range w.R.Log {
+	untrustedAt := func(li int) bool {
+		for _, r := range w.UntrustedSwaps {
+			if li >= r[0] && li < r[1] {
+				return true
+			}
+		}
+		return false
+	}
+	signedUntrusted := map[string]bool{} // B_ first signed during a swap for a mint the wallet did not trust then
+	maxUntrusted := map[string]bool{}    // wallet|keyset -> the highest signed counter was signed that way
+	for li, ex := range w.R.Log {
 		if ex.Method != "POST" {
 			continue
 		}
@@ -108,6 +118,8 @@ func c19Counters(w *wworld.World) {
 				sfx := ""
 				if ww := w.Wallets[d.Wallet]; ww.DB != nil && !c19KeysetStored(ww, d.Keyset) {
 					sfx = "/keyset-of-untrusted-mint-not-stored"
+				} else if signedUntrusted[o.B] {
+					sfx = "/first-signed-for-a-then-untrusted-mint"
 				}
 				w.Viol("C19", "signed-counter-submitted-again/"+ex.Path+sfx, "%s submitted for signing (%s) the output of keyset %s counter %d which it already had signed", w.Wallets[d.Wallet].Name, ex.Path, d.Keyset, d.Counter)
 			}
@@ -128,11 +140,15 @@ func c19Counters(w *wworld.World) {
 			if i >= n {
 				break
 			}
+			if !signed[o.B] && untrustedAt(li) {
+				signedUntrusted[o.B] = true
+			}
 			signed[o.B] = true
 			if d, det := idx[o.B]; det {
 				k := fmt.Sprintf("%d|%s", d.Wallet, d.Keyset)
 				if !hasSigned[k] || d.Counter > maxSigned[k] {
 					maxSigned[k] = d.Counter
+					maxUntrusted[k] = untrustedAt(li)
 				}
 				hasSigned[k] = true
 			}
@@ -152,6 +168,8 @@ func c19Counters(w *wworld.World) {
 				// the wallet derived outputs for a keyset it keeps no record of (a mint it does not trust): there is no counter
 				// to advance at all
 				key += "/keyset-of-untrusted-mint-not-stored"
+			} else if maxUntrusted[k] {
+				key += "/signed-for-a-then-untrusted-mint"
 			}
 			w.Viol("C19", key, "%s: stored counter of keyset %s is %d, but counter %d of that keyset has been signed", ww.Name, ks, c, mx)
 		}
